@@ -204,6 +204,9 @@ func runVerify(o *runOpts) (*RunOutput, error) {
 		}
 		scanRes = x.scanNondeterminism(fs, *o.scan)
 		scanRes = append(scanRes, x.scanMapRanges(fs)...)
+		if o.scan.SharedReads {
+			scanRes = append(scanRes, x.scanSharedFlagReads(fs)...)
+		}
 	}
 	if o.astScan != nil {
 		allowed := map[string]bool{}
